@@ -271,6 +271,9 @@ func genC12(seed uint64, part string) *Scenario {
 	pf.popP = 25
 	pf.afterP = 15
 	pf.posTotals = true
+	pf.builtinP = 30
+	pf.builtinKinds = []string{"avgeta", "ewmaspeed", "ewmaeta", "spindec", "emptyname", "emptyname"}
+	pf.emptyMsgP = 25
 	if part == "nq" {
 		pf.qKinds = []string{"zero", "one", "two"}
 	}
